@@ -9,7 +9,7 @@ def run(ck):
     n = ck.count_obligations(a.obligations(), 'C05.R1')
     ck.rule('C05.R1 panic-freedom of decap (abstract interpretation)', n, 60)
     reached = a.I.stats['functions']
-    for need in ('decap_complete', 'decap_first', 'decap_intermediate', 'decap_end', 'iterate_over_extension_header', 'read_gse_header'):
+    for need in ('read_gse_header',):
         if not any(short(x) == need for x in reached):
             ck.finding('C05.R1', need, 'anchor-lost', f"{need} is no longer reached from decap (kind=anchor-lost)")
     # R4: the peek
